@@ -1,5 +1,5 @@
 ------------------------------ MODULE LpcC11 ------------------------------
-(* Case grids for C11: reflection-coefficient vectors (inside, outside and on the unit circle,  *)
+(* Case grid operators for C11 (the grids themselves: LpcC11Q.tla, LpcC11T.tla): reflection-coefficient vectors (inside, outside and on the unit circle,  *)
 (* zeros in non-final positions) stepped up and down again; the same vectors inside (-1,1)      *)
 (* turned into an autocorrelation, run through Levinson and stepped down; denominators built    *)
 (* from real and complex-conjugate rational roots inside / on / outside the unit circle with    *)
@@ -26,10 +26,6 @@ RootSets(maxorder) ==
          : nc \in 0..(maxorder \div 2)}
 StOf(maxorder, G) == {CaseSt(rs[1], rs[2], g) : rs \in RootSets(maxorder), g \in G}
 
-C11Quick    == {CaseKs(s) : s \in KsOf(KAll, {1, 2, 3})} \cup {CaseKl(s) : s \in KsOf(KIn, {1, 2, 3})}
-               \cup StOf(3, Gains)
-KFew        == {Q(1, 2), Q(-1, 3), Q(1, 4), R(0), R(2), R(-1)}
-C11Thorough == {CaseKs(s) : s \in KsOf(KAll, {1, 2, 3}) \cup KsOf(KFew, {4})}
-               \cup {CaseKl(s) : s \in KsOf(KIn, {1, 2, 3, 4})}
-               \cup StOf(4, Gains)
+\* the tier grids are single definitions in LpcC11Q / LpcC11T (TLC builds every parameterless definition of
+\* every loaded module at start-up, so the big sets live in the module of the tier that uses them)
 ===========================================================================
